@@ -22,12 +22,12 @@ func initCallableTypeNode() {
 			}
 
 			var argReturnType ast.TypeNode
-			if !args[2].IsUndefined() {
+			if !args[2].IsUndefined() && !args[2].IsNil() {
 				argReturnType = args[2].MustReference().(ast.TypeNode)
 			}
 
 			var argThrowType ast.TypeNode
-			if !args[3].IsUndefined() {
+			if !args[3].IsUndefined() && !args[3].IsNil() {
 				argThrowType = args[3].MustReference().(ast.TypeNode)
 			}
 
